@@ -15,7 +15,7 @@ CONF = {
         rand=[('list', ALLC)],
         rand_size=((30, 80, 10), (300, 150, 40))),      # (histories per codec, steps, maxlen)
     'C02': dict(
-        mc=[('set', (3, 3, 2, 1), (5, 5, 2, 1))],
+        mc=[('set', (3, 3, 2, 1), (5, 5, 2, 1)), ('set2', (2, 3, 0, 1), (3, 4, 0, 1))],
         edge_codecs=(['int', 'slice'], ALLS),
         rand=[('set', ALLS)],
         rand_size=((30, 80, 12), (300, 150, 40))),
